@@ -224,6 +224,11 @@ class Var:
     variances = None
     variance = None
 
+    def __getattr__(self, name):
+        if (name.startswith('__') and name.endswith('__')) or name.startswith('vf_') or name.startswith('_vf'):
+            raise AttributeError(name)
+        raise Unsupported(f'Variable.{name} is not in the scipp model')
+
     @property
     def val(self):
         return self.buf.val
@@ -269,6 +274,8 @@ class Var:
     def value(self):
         if self.dims:
             raise DimensionError('Expected 0 dimensions')
+        if self.dtype == BOOL:
+            return SBool(self.val)
         cv = concrete(self.val) if _kind(self.dtype) == 'scalar' else None
         if cv is not None:
             return int(cv) if self.dtype in INTS else float(cv)
@@ -702,7 +709,29 @@ class Var:
     def transpose(self, dims=None):
         if self.dtype == ROW3 or len(self.dims) <= 1:
             return self
-        raise Unsupported('transpose')
+        ds = tuple(dims) if dims is not None else tuple(reversed(self.dims))
+        if set(ds) != set(self.dims):
+            raise DimensionError(f'transpose: {ds} is not a permutation of {self.dims}')
+        return Var(self.buf, ds, self._sizes)   # element-generic: the element set is unchanged
+
+    def flatten(self, dims=None, to=None):
+        ds = tuple(dims) if dims is not None else self.dims
+        if to is None:
+            raise Unsupported('flatten without target')
+        if ds and tuple(d for d in self.dims if d in ds) != ds:
+            raise DimensionError(f'flatten: {ds} are not adjacent dims of {self.dims} in this order')
+        out = []
+        done = False
+        for d in self.dims:
+            if d in ds:
+                if not done:
+                    out.append(to)
+                    done = True
+            else:
+                out.append(d)
+        if not self.dims:
+            out = [to]
+        return Var(self.buf, tuple(out), self._sizes)
 
     def max(self, dim=None):
         return max_(self, dim)
@@ -925,6 +954,28 @@ def _dispatch(name):
             raise Unsupported(f'sc.{name} on {type(x).__name__}')
         return m(*a, **k)
     return f
+
+
+def arange(dim, start, stop=None, step=None, *, unit=_DEFAULT, dtype=None):
+    """Generic element of sc.arange: an integer K with start <= K < stop (step 1), as a 1-d variable along `dim`."""
+    from .pysym import SymInt, _lift
+    if stop is None:
+        start, stop = 0, start
+    if step not in (None, 1):
+        raise Unsupported('arange with a step')
+    if not isinstance(start, (int, SymInt)) or not isinstance(stop, (int, SymInt)) or isinstance(start, bool):
+        if hasattr(stop, '__vf_len__') or hasattr(start, '__vf_len__'):
+            raise Unsupported('arange bounds')
+        if isinstance(start, float) or isinstance(stop, float):
+            raise Unsupported('arange with float bounds')
+    a, _ = _lift(start)
+    b, _ = _lift(stop)
+    K = core.fresh_int('arange_k')
+    core.assume(z3.And(K >= a, K < b))
+    ctx().log.append(('arange', dim, a, b, K))
+    dt = norm_dtype(dtype) if dtype is not None else I64
+    v = Var(Buf(z3.ToReal(K), None if unit is None else _default_unit(unit), dt), (dim,), {})
+    return v
 
 
 def index(value, dtype=None):
@@ -1298,7 +1349,7 @@ def build_modules():
         scalar=scalar, vector=vector, index=index, to_unit=to_unit, sqrt=sqrt, reciprocal=reciprocal,
         sin=sin, cos=cos, atan2=atan2, asin=asin, acos=acos, exp=exp, log=log, norm=norm, dot=dot, cross=cross,
         values=values, variances=variances, array=array, full=full, concat=_dispatch('concat'), cumsum=_dispatch('cumsum'),
-        issorted=_dispatch('issorted'), mean=_dispatch('mean'), arange=lambda *a, **k: ('arange', a, tuple(sorted(k.items()))), round=round_, vectors=vectors, where=where, any=any_, all=all_, max=max_, min=min_, abs=abs_, isnan=isnan, identical=identical,
+        issorted=_dispatch('issorted'), mean=_dispatch('mean'), arange=arange, round=round_, vectors=vectors, where=where, any=any_, all=all_, max=max_, min=min_, abs=abs_, isnan=isnan, identical=identical,
     ).items():
         setattr(sc, k, v)
     return {'scipp': sc, 'scipp.units': units, 'scipp.constants': const, 'scipp.typing': typing_,
